@@ -392,15 +392,16 @@ Definition witness7 : list op :=
 
 Definition T0 := 1700000000%Z.
 Definition fails (fl : flags) (h : list op) : Prop := ~ spec (rinit T0) h (run fl (init T0) h).
+Definition fails_at (now : Z) (fl : flags) (h : list op) : Prop := ~ spec (rinit now) h (run fl (init now) h).
 Ltac refute := unfold fails; intros H; apply spec_b_iff in H; vm_compute in H; discriminate.
 
 (* exactly one repair reverted *)
-Definition rev_fall := {| f_fall := true; f_last := false; f_unsigned := false; f_mdq := false; f_inline := false; f_group := false; f_gaps := [] |}.
-Definition rev_last := {| f_fall := false; f_last := true; f_unsigned := false; f_mdq := false; f_inline := false; f_group := false; f_gaps := [] |}.
-Definition rev_unsigned := {| f_fall := false; f_last := false; f_unsigned := true; f_mdq := false; f_inline := false; f_group := false; f_gaps := [] |}.
-Definition rev_mdq := {| f_fall := false; f_last := false; f_unsigned := false; f_mdq := true; f_inline := false; f_group := false; f_gaps := [] |}.
-Definition rev_group := {| f_fall := false; f_last := false; f_unsigned := false; f_mdq := false; f_inline := false; f_group := true; f_gaps := [] |}.
-Definition rev_inline := {| f_fall := false; f_last := false; f_unsigned := false; f_mdq := false; f_inline := true; f_group := false; f_gaps := [] |}.
+Definition rev_fall := {| f_fall := true; f_last := false; f_unsigned := false; f_mdq := false; f_inline := false; f_group := false; f_zone := None |}.
+Definition rev_last := {| f_fall := false; f_last := true; f_unsigned := false; f_mdq := false; f_inline := false; f_group := false; f_zone := None |}.
+Definition rev_unsigned := {| f_fall := false; f_last := false; f_unsigned := true; f_mdq := false; f_inline := false; f_group := false; f_zone := None |}.
+Definition rev_mdq := {| f_fall := false; f_last := false; f_unsigned := false; f_mdq := true; f_inline := false; f_group := false; f_zone := None |}.
+Definition rev_group := {| f_fall := false; f_last := false; f_unsigned := false; f_mdq := false; f_inline := false; f_group := true; f_zone := None |}.
+Definition rev_inline := {| f_fall := false; f_last := false; f_unsigned := false; f_mdq := false; f_inline := true; f_group := false; f_zone := None |}.
 
 (* the code before the repairs violated the property (and reverting the one commit is enough) *)
 Lemma fallthrough_v0_refuted : fails v0 witness1 /\ fails rev_fall witness1. Proof. split; refute. Qed.
@@ -502,13 +503,18 @@ Example validity_store_switch :
   = (false, true, true, true).
 Proof. reflexivity. Qed.
 
-(* ------------------------------------------------------------------ the process time zone (round 5, finding C11-F8)
-   MetaDataMDX._fetch_metadata computes the expiration date with time_util.add_duration, which sends the broken-down
-   UTC time through the LOCAL calendar (time.localtime(time.mktime(...))).  In a zone with daylight saving an instant
-   whose UTC reading falls into the hour that the local calendar skips comes back one hour later: the cached entry
-   is served, without a new query, for an hour after its freshness period has run out.  [cur] is the code in a zone
-   without such gaps (f_gaps = []): everything proved for [cur] is proved under that guard. *)
-Lemma in_zone_nil : in_zone [] = cur.
+(* ------------------------------------------------------------------ the process time zone (finding C11-F8, repaired
+   by 7137d601).  Before the commit MetaDataMDX._fetch_metadata computed the expiration date with an add_duration
+   that sent the broken-down UTC time through the LOCAL calendar (time.localtime(time.mktime(...))): in a zone with
+   daylight saving an instant whose UTC reading falls into the hour that the local calendar skips came back one hour
+   later, and the cached entry was served, without a new query, for an hour after its freshness period had run out.
+   [zone_v0 gaps] is that code in such a zone.  [cur], the code now, computes in UTC: no gap table enters it at
+   all, so everything proved for [cur] holds in every zone. *)
+Lemma expiry_cur now period : expiry cur now period = (now + period)%Z.
+Proof. reflexivity. Qed.
+
+(* the current code's expiration date is that of the old code in a zone without gaps - and of no other table *)
+Lemma expiry_zone_v0 g now period : expiry (zone_v0 g) now period = zone_fix g (now + period).
 Proof. reflexivity. Qed.
 
 Lemma zone_fix_outside gaps t :
@@ -520,10 +526,13 @@ Proof.
   - replace (t <? a + len)%Z with false by (symmetry; apply Z.ltb_ge; lia). rewrite andb_false_r. apply IH. intros; apply (H a0 len0 sh0). right; assumption.
 Qed.
 
-(* a fetch whose expiration date does not fall into a gap is the fetch of the gap-free code *)
+(* what the repair changed: a fetch of the old code whose expiration date is outside every gap is the fetch of the
+   code now (so the two differ only on fetches made while now + period lies inside a gap) *)
 Theorem mdx_fetch_zone_outside g x now srv e :
-  zone_fix g (now + x_period x) = (now + x_period x)%Z -> mdx_fetch (in_zone g) x now srv e = mdx_fetch cur x now srv e.
-Proof. intros H. unfold mdx_fetch. cbn [f_mdq f_group f_gaps in_zone cur]. rewrite H. reflexivity. Qed.
+  zone_fix g (now + x_period x) = (now + x_period x)%Z -> mdx_fetch (zone_v0 g) x now srv e = mdx_fetch cur x now srv e.
+Proof.
+  intros H. unfold mdx_fetch, expiry. cbn [f_mdq f_group f_zone zone_v0 cur]. rewrite H. reflexivity.
+Qed.
 
 (* US Pacific time, 2024-03-10: 02:00 - 03:00 does not exist; expressed over UTC readings *)
 Definition Tz := 1710034200%Z.                             (* 2024-03-10T01:30:00Z *)
@@ -536,7 +545,7 @@ Definition zone_witness : list op :=
    OQuery (QSso "urn:e1" None)].
 
 Example zone_witness_out :
-  run (in_zone us_gap) (init Tz) zone_witness
+  run (zone_v0 us_gap) (init Tz) zone_witness
   = [AFlag true; ASvcs [Svc N_SSO bRd "https://first.example.org/sso" None];
      ASvcs [Svc N_SSO bRd "https://first.example.org/sso" None]]
   /\ run cur (init Tz) zone_witness
@@ -544,7 +553,10 @@ Example zone_witness_out :
      ASvcs [Svc N_SSO bRd "https://second.example.org/sso" None]].
 Proof. split; vm_compute; reflexivity. Qed.
 
-Theorem c11_zone_gap_refuted : ~ spec (rinit Tz) zone_witness (run (in_zone us_gap) (init Tz) zone_witness).
-Proof. intros H; apply spec_b_iff in H; vm_compute in H; discriminate. Qed.
-Theorem c11_zone_gap_refuted_ex : exists g now h, ~ spec (rinit now) h (run (in_zone g) (init now) h).
-Proof. exists us_gap, Tz, zone_witness. exact c11_zone_gap_refuted. Qed.
+Theorem zone_gap_v0_refuted : fails_at Tz (zone_v0 us_gap) zone_witness.
+Proof. unfold fails_at. intros H; apply spec_b_iff in H; vm_compute in H; discriminate. Qed.
+Theorem zone_gap_v0_refuted_ex : exists g now h, ~ spec (rinit now) h (run (zone_v0 g) (init now) h).
+Proof. exists us_gap, Tz, zone_witness. exact zone_gap_v0_refuted. Qed.
+(* ... and the witness conforms now (an instance of model_satisfies_spec) *)
+Theorem zone_witness_conforms_now : spec (rinit Tz) zone_witness (run cur (init Tz) zone_witness).
+Proof. apply model_satisfies_spec. Qed.
